@@ -4,7 +4,7 @@ use std::convert::TryFrom;
 use crate::check::context::clss::generic::GenericClass;
 use crate::check::context::field::generic::GenericField;
 use crate::check::context::function::generic::GenericFunction;
-use crate::check::context::generic::generics;
+use crate::check::context::generic::{generics, inheritance_is_acyclic};
 use crate::check::name::Any;
 use crate::check::result::{TypeErr, TypeResult};
 use crate::common::position::Position;
@@ -64,7 +64,9 @@ impl TryFrom<&[AST]> for Context {
             context.functions.insert(func.clone());
         });
 
-        context.into_with_primitives()?.into_with_std_lib()
+        let context = context.into_with_primitives()?.into_with_std_lib()?;
+        inheritance_is_acyclic(&context.classes)?;
+        Ok(context)
     }
 }
 
